@@ -190,6 +190,16 @@ const c08Probe = `{namespace probe}
 {foreach $k in keys($u)}{$k}={$u[$k]};{/foreach}|{foreach $k in keys(augmentMap($u, $e))}{$k},{/foreach}|{length(keys(['p': $u.zz.y, 'q': $e.zz.y, 'r': $u.name.x.y]))}
 {/template}
 
+/** @param name */
+{template .greetA}
+{msg desc="greeting"}Hello {$name}!{/msg}
+{/template}
+
+/** @param u */
+{template .greetB}
+{msg desc="greeting"}Hello {$u.name}!{/msg}
+{/template}
+
 /** @param visits */
 {template .ok}
 {let $d}Hello {/let}{$d}world{call .wrap}{param body}b{/param}{/call}
@@ -416,6 +426,34 @@ func directC08(g *G, rep *Report) {
 				}
 			}
 			runtime.UnlockOSThread()
+		}
+		// two messages with the same text and placeholder NAME (so the same id) but different placeholder expressions,
+		// rendered through the identity bundle in both orders: each must print ITS OWN expression (known expected text:
+		// a process-wide memo keyed by message id would be wrong from the first render on, not "later in the history")
+		if cfg != "obligatory-directive" {
+			da := toData(map[string]interface{}{"name": "Zoe"})
+			db := toData(map[string]interface{}{"u": map[string]interface{}{"name": "Ann"}})
+			for k := 0; k < 2; k++ {
+				order := [][2]interface{}{{"probe.greetA", da}, {"probe.greetB", db}}
+				if (i+k)%2 == 1 {
+					order[0], order[1] = order[1], order[0]
+				}
+				for _, o := range order {
+					var buf bytes.Buffer
+					cls := safely(func() error {
+						return tofu.NewRenderer(o[0].(string)).WithMessages(msgs).Execute(&buf, o[1].(data.Map))
+					})
+					want := "OK:Hello Zoe!"
+					if o[0].(string) == "probe.greetB" {
+						want = "OK:Hello Ann!"
+					}
+					rep.Evaluations++
+					if got := cls + ":" + buf.String(); got != want {
+						rep.Violations = append(rep.Violations, Viol{Key: "c08-twin-messages:" + cfg, What: "two messages with the same text and placeholder name but different placeholder expressions, rendered through a bundle: " + o[0].(string) + " does not print its own expression",
+							Req: req("c08hist", encSources(fs)), Note: o[0].(string), Impl: got, Want: want})
+					}
+				}
+			}
 		}
 		if recur {
 			rep.DistinctNT++
